@@ -172,6 +172,22 @@ claimed["C16"] = (
     "afterwards. Tie: ChangeSet<Amt> slots driven through new / add / collect / extend / clear with repeated and dead "
     "handles, joined by reference, mutably and by value with storages, entities and bit sets through the real impls; "
     "rows and dumps compared with the specification.", "5.C16")
+claimed["C08"] = (
+    "Theorems (Coq, closed under the global context): no history in which components are registered before use ever reads "
+    "a slot that was never written, was moved out or lies outside the allocation (the faithful storage models mark each "
+    "such access as stuck; never-stuck is proved for all histories and all five raw kinds with both wrappers); per "
+    "operation: remove hands back the stored value and destroys nothing, an overwrite hands back the old value, an insert "
+    "refused for a dead entity destroys exactly the refused value, deletion destroys exactly that entity's value once and "
+    "removes the slot, clear leaves nothing behind; per storage kind: VecStorage::clean destroys exactly the initialised "
+    "slots named by the mask, once each, in mask order, and marks them moved-out, the map kinds destroy every value once, "
+    "the null storage materialises one unit per member; values queued lazily are stored or destroyed by the same "
+    "generation-checked operation. Tie and whole-history ledger: the harness records every value constructed, handed "
+    "back and destroyed (and every look at a value that is already gone); on every explored history (all 16 storages, "
+    "every insertion / removal / drain / entry / clear / deletion / maintain / lazy / join-with-drain path, ending with "
+    "the world dropped) constructed = handed back + destroyed as multisets, nothing is looked at after it is gone, and "
+    "the values destroyed by each operation equal the specification's. Partial: the whole-history conservation law is "
+    "evaluated per history by the check, not yet proved as one theorem over all histories; destructor panics are C19.",
+    "5.C08")
 REASONS = {}
 
 checks = []
